@@ -173,6 +173,17 @@ Theorem C14_range_table :
   forallb entry_ok range_calls = true /\ has "jsa_range" = true /\ has "jsi_range" = true /\ has "jsi_singles_range" = true.
 Proof. exact range_table_ok. Qed.
 
+Theorem C14_range_table_names :
+  map fst range_calls = ["jsa_range"; "jsa_normalized_range"; "jsi_range"; "jsi_normalized_range"; "jsi_singles_range"; "jsi_singles_idler_range";
+                         "jsi_singles_normalized_range"; "jsi_singles_idler_normalized_range"]%string.
+Proof. exact range_table_names. Qed.
+
+(* the constructors of the three spaces keep their arguments in order (first tuple = signal axis) *)
+Theorem C14_constructors : forall (x0 x1 : R) nx (y0 y1 : R) ny,
+  fs_new x0 x1 nx y0 y1 ny = mk_space x0 x1 nx y0 y1 ny /\ sd_new x0 x1 nx y0 y1 ny = mk_space x0 x1 nx y0 y1 ny /\
+  ws_new x0 x1 nx y0 y1 ny = mk_space x0 x1 nx y0 y1 ny.
+Proof. exact constructors_keep_order. Qed.
+
 (* the executable Q instance run by the correspondence cases is the real instance on rational arguments *)
 Theorem C14_model_Q_is_R :
   (forall s e n i, Q2R (steps_value Qops s e n i) = steps_value Rops (Q2R s) (Q2R e) n i) /\
@@ -196,6 +207,8 @@ Proof.
 Qed.
 
 (* non-vacuity *)
+Example C14_nonvacuous_float_guard : steps_value_guard 1 2 3 1.
+Proof. exact steps_value_guard_example. Qed.
 Example C14_nonvacuous_space : ascending (fst (mk_space 1 2 3 1 2 3)) /\ nonzero_axes (mk_space 1 2 3 1 2 3).
 Proof. unfold ascending, nonzero_axes, mk_space; cbn. repeat split; lra. Qed.
 Example C14_nonvacuous_transpose : transpose_vec [0; 1; 2; 3; 4; 5] 3 = Ok [0; 3; 1; 4; 2; 5] /\ is_transpose 2 3 [0; 1; 2; 3; 4; 5] [0; 3; 1; 4; 2; 5].
@@ -227,4 +240,6 @@ Print Assumptions C14_transpose.
 Print Assumptions C14_transpose_ragged.
 Print Assumptions C14_range_table.
 Print Assumptions C14_model_Q_is_R.
+Print Assumptions C14_range_table_names.
+Print Assumptions C14_constructors.
 Print Assumptions C14_steps_value_float_partial.
